@@ -636,8 +636,9 @@ PROPS = {
                       "exact correspondence. Proved: external_refutes_programs - for a task that compares two programs (no placeholders, no proof outline, tightness not bypassed; every direction, decomposition, "
                       "simplify and eq-break flag): some emitted problem is refuted by a classical interpretation iff it satisfies the user-guide assumptions and, in a requested direction, is a stable model of one "
                       "program (on that program's vocabulary, with its own input facts) and satisfies the completed definitions of the other program's private predicates without being a stable model of it "
-                      "(composition of C04 completion_tight, C07, C19, private renaming, assembly; hypothesis: rename_conflicting_symbols is the identity on the assembled problems). Not proved: specification "
-                      "formulas instead of a program, placeholders, proof outlines, uniqueness of the private extents. The literal property is FALSE on the unchanged tree at two points, each with a kernel-checked "
+                      "(composition of C04 completion_tight, C07, C19, private renaming, assembly; hypothesis: rename_conflicting_symbols is the identity on the assembled problems); cannot_produce_public_part - "
+                      "with simplification off the last clause is the same as 'no stable model of that program has the same extents of the non-private predicates' (uniqueness of the private extents without "
+                      "private recursion, private_extents_unique, by induction on the rank in the private dependency graph). Not proved: specification formulas instead of a program, placeholders, proof outlines. The literal property is FALSE on the unchanged tree at two points, each with a kernel-checked "
                       "counterexample theorem and a corpus witness replayed on the implementation (known findings).",
         "level_note": PROOF_NOTE,
         "technique": "Lean 4 (pipeline model, counterexample theorems by kernel evaluation, decomposition theorems) + end-to-end differential correspondence",
